@@ -190,7 +190,7 @@ def c18(tier):
 
 def c08(tier):
     vlib.standard(
-        "C08", tier, "c08", ["Properties_C08.v", "Proofs_Frontends.v"],
+        "C08", tier, "c08", ["Properties_C08.v", "Proofs_Frontends.v", "Properties_System.v", "Proofs_System.v"],
         assume=[
             "a checker's diagnostics for a file do not depend on which package variant (p, p [p.test]) the file is analysed in; the differential run measures this",
             "the go/analysis driver prints each distinct (position, message) once (x/tools internal/checker)",
